@@ -383,6 +383,15 @@ class _resolve_called_lambdas(ast.NodeTransformer):
 
     def __init__(self):
         self._arg_map_list: List[Dict[str, Union[ast.AST, str]]] = []
+        self._used_names: Optional[set] = None
+
+    def visit(self, node: ast.AST) -> Any:
+        if self._used_names is None:
+            # Every name in the expression - a renamed local must not collide with any of them
+            self._used_names = {n.id for n in ast.walk(node) if isinstance(n, ast.Name)} | {
+                n.arg for n in ast.walk(node) if isinstance(n, ast.arg)
+            }
+        return super().visit(node)
 
     def _bind_arguments(self, lambda_node: ast.Lambda, node: ast.Call) -> Optional[Dict[str, Any]]:
         "Match the call's positional and keyword arguments to the lambda's parameters"
@@ -429,9 +438,12 @@ class _resolve_called_lambdas(ast.NodeTransformer):
         result: Dict[str, Union[ast.AST, str]] = {}
         for name in names:
             new_name, i = name, 0
-            while new_name in in_arguments:
-                i += 1
-                new_name = f"{name}_{i}"
+            if name in in_arguments:
+                assert self._used_names is not None
+                while new_name in in_arguments or new_name in self._used_names:
+                    i += 1
+                    new_name = f"{name}_{i}"
+                self._used_names.add(new_name)
             result[name] = new_name
         return result
 
